@@ -92,6 +92,9 @@ func checkC07(c *Check) {
 	}
 	c.Counts["blocking_resources_on_compile_path"] = blockingResources(c, "RESOURCE-PAIR", "HELD-ACROSS-NESTING", inFns)
 	c.Counts["goroutines_started_in_loops"] = goroutineLoopVars(c, "GOROUTINE-LOOPVAR", inFns)
+	c.Okf("GOROUTINE-LOOPVAR", "scan", "-", "%d compile-path functions scanned for goroutines started in loops: %d found and evaluated", len(inFns), c.Counts["goroutines_started_in_loops"])
+	c.Okf("RESOURCE-PAIR", "scan", "-", "%d compile-path functions scanned for locks and semaphore tokens: %d acquisitions found and evaluated", len(inFns), c.Counts["blocking_resources_on_compile_path"])
+	c.Okf("HELD-ACROSS-NESTING", "scan", "-", "%d compile-path functions scanned for locks and semaphore tokens: %d acquisitions found and evaluated", len(inFns), c.Counts["blocking_resources_on_compile_path"])
 	// (6) the file table shared by the import fetchers of one compilation
 	if ic := findImportClosure(c); ic == nil || ic.collector == nil || ic.canon == nil {
 		c.Undecidedf("ANCHOR", "import closure", "-", "cannot resolve the retrieved-list type / collector / canonicaliser in pkg/parse: unresolved anchor")
